@@ -391,6 +391,233 @@ Lemma run_good e calls : benign calls -> Forall good (run e calls).
 Proof. apply run_session_good, no_placeholder_nil. Qed.
 
 (* ------------------------------------------------------------------------- *)
+(** * Iterator session over a graph of types *)
+
+(* Invariant between lookups: no placeholder is left with its WaitGroup unreleased.  It holds
+   for every failure policy that releases the placeholder ([fp_release]), whatever the types
+   (cycles, unsupported kinds anywhere) and whatever was generated / failed before. *)
+Definition nonpending (x : ph_state) : Prop := x <> PhPending.
+Definition no_pending (s : isession) : Prop := Forall nonpending (is_phs s).
+
+(* [s'] has the placeholders of [s], unchanged, plus released ones. *)
+Definition grows (s s' : isession) : Prop :=
+  exists ext, is_phs s' = is_phs s ++ ext /\ Forall nonpending ext.
+
+Lemma grows_refl s : grows s s.
+Proof. exists []. rewrite app_nil_r. split; [reflexivity | constructor]. Qed.
+
+Lemma grows_trans s1 s2 s3 : grows s1 s2 -> grows s2 s3 -> grows s1 s3.
+Proof.
+  intros [e1 [H1 F1]] [e2 [H2 F2]]. exists (e1 ++ e2). split.
+  - rewrite H2, H1, app_assoc. reflexivity.
+  - apply Forall_app. split; assumption.
+Qed.
+
+Lemma grows_no_pending s s' : grows s s' -> no_pending s -> no_pending s'.
+Proof.
+  intros [ext [H F]] Hs. unfold no_pending. rewrite H. apply Forall_app. split; assumption.
+Qed.
+
+Lemma upd_app_here {A} (a b : list A) (y x : A) : upd (length a) x (a ++ y :: b) = a ++ x :: b.
+Proof. induction a as [|h a IH]; simpl; [reflexivity | rewrite IH; reflexivity]. Qed.
+
+Lemma ifinish_grows s0 s t it ext :
+  is_phs s = is_phs s0 ++ PhPending :: ext -> Forall nonpending ext ->
+  grows s0 (fst (ifinish s t (length (is_phs s0)) it)).
+Proof.
+  intros H F. unfold ifinish, grows. simpl. rewrite H, upd_app_here.
+  eexists. split; [reflexivity|]. constructor; [discriminate | exact F].
+Qed.
+
+Lemma ifail_grows pol s0 s t ext :
+  fp_release pol = true ->
+  is_phs s = is_phs s0 ++ PhPending :: ext -> Forall nonpending ext ->
+  grows s0 (fst (ifail pol s t (length (is_phs s0)))).
+Proof.
+  intros Hrel H F. unfold ifail, grows. simpl. rewrite Hrel, H, upd_app_here.
+  eexists. split; [reflexivity|]. constructor; [discriminate | exact F].
+Qed.
+
+Lemma build_list_grows (b : nat -> isession -> isession * bres) :
+  (forall t s s' r, b t s = (s', r) -> r <> BGiveUp -> grows s s') ->
+  forall ts s s' lr, build_list b ts s = (s', lr) -> lr <> LGiveUp -> grows s s'.
+Proof.
+  intros Hb ts. induction ts as [|t ts IH]; intros s s' lr H Hlr; simpl in H.
+  - injection H as <- _. apply grows_refl.
+  - destruct (b t s) as [s1 r1] eqn:E1. destruct r1 as [x| |].
+    + assert (grows s s1) as G1 by (eapply Hb; [exact E1 | discriminate]).
+      destruct (build_list b ts s1) as [s2 lr2] eqn:E2.
+      assert (lr2 <> LGiveUp -> grows s1 s2) as G2 by (intro; eapply IH; [exact E2 | assumption]).
+      destruct lr2 as [xs| |]; injection H as <- <-.
+      * eapply grows_trans; [exact G1 | apply G2; discriminate].
+      * eapply grows_trans; [exact G1 | apply G2; discriminate].
+      * exfalso. apply Hlr. reflexivity.
+    + injection H as <- _. eapply Hb; [exact E1 | discriminate].
+    + injection H as _ <-. exfalso. apply Hlr. reflexivity.
+Qed.
+
+(* A lookup (with everything it generates on the way, successfully or not) leaves only released
+   placeholders behind, and does not touch the ones that were there. *)
+Lemma ibuild_grows pol env :
+  fp_release pol = true ->
+  forall fuel t s s' r, ibuild pol env fuel t s = (s', r) -> r <> BGiveUp -> grows s s'.
+Proof.
+  intros Hrel fuel. induction fuel as [|k IH]; intros t s s' r H Hr; simpl in H.
+  - destruct (icache_find (is_cache s) t).
+    + injection H as <- _. apply grows_refl.
+    + injection H as _ <-. exfalso. apply Hr. reflexivity.
+  - destruct (icache_find (is_cache s) t).
+    { injection H as <- _. apply grows_refl. }
+    destruct (nth_error env t) as [d|].
+    2:{ injection H as _ <-. exfalso. apply Hr. reflexivity. }
+    set (s1 := {| is_cache := (t, RPh (length (is_phs s))) :: is_cache s; is_iters := is_iters s;
+                  is_phs := is_phs s ++ [PhPending] |}) in *.
+    assert (is_phs s1 = is_phs s ++ PhPending :: []) as H1 by reflexivity.
+    destruct d as [| | |ts].
+    + pose proof (ifinish_grows s s1 t IScalar [] H1 (Forall_nil _)) as G. rewrite H in G. exact G.
+    + pose proof (ifail_grows pol s s1 t [] Hrel H1 (Forall_nil _)) as G. rewrite H in G. exact G.
+    + pose proof (ifinish_grows s s1 t IIface [] H1 (Forall_nil _)) as G. rewrite H in G. exact G.
+    + destruct (build_list (ibuild pol env k) ts s1) as [s2 lr] eqn:E.
+      assert (lr <> LGiveUp -> exists ext, is_phs s2 = is_phs s ++ PhPending :: ext /\ Forall nonpending ext) as G2.
+      { intro Hlr. destruct (build_list_grows (ibuild pol env k) (fun t0 a b c => IH t0 a b c) ts s1 s2 lr E Hlr) as [ext [He Fe]].
+        exists ext. split; [|exact Fe]. rewrite He, H1, <- app_assoc. reflexivity. }
+      destruct lr as [rs| |].
+      * destruct G2 as [ext [He Fe]]; [discriminate|].
+        pose proof (ifinish_grows s s2 t (IComp rs) ext He Fe) as G. rewrite H in G. exact G.
+      * destruct G2 as [ext [He Fe]]; [discriminate|].
+        pose proof (ifail_grows pol s s2 t ext Hrel He Fe) as G. rewrite H in G. exact G.
+      * injection H as _ <-. exfalso. apply Hr. reflexivity.
+Qed.
+
+Lemma resolve_not_wait s r : no_pending s -> resolve s r <> RsWait.
+Proof.
+  intros Hs. unfold resolve. destruct r as [i|p].
+  - destruct (nth_error (is_iters s) i); discriminate.
+  - destruct (nth_error (is_phs s) p) as [[|i|]|] eqn:E; try discriminate.
+    + exfalso. apply nth_error_In in E. unfold no_pending in Hs. rewrite Forall_forall in Hs.
+      exact (Hs _ E eq_refl).
+    + destruct (nth_error (is_iters s) i); discriminate.
+Qed.
+
+Definition call_safe (callf : iref -> vshape -> isession -> isession * tres) : Prop :=
+  forall r v s s' o, no_pending s -> callf r v s = (s', o) -> o <> TGiveUp -> no_pending s' /\ o <> THang.
+
+Lemma call_kids_safe callf : call_safe callf ->
+  forall rs kids s s' o, no_pending s -> call_kids callf rs kids s = (s', o) -> o <> TGiveUp ->
+                         no_pending s' /\ o <> THang.
+Proof.
+  intros Hc rs kids. induction kids as [|[i v] rest IH]; intros s s' o Hs H Ho; simpl in H.
+  - injection H as <- <-. split; [exact Hs | discriminate].
+  - destruct (nth_error rs i) as [r|].
+    2:{ injection H as _ <-. exfalso. apply Ho. reflexivity. }
+    destruct (callf r v s) as [s1 o1] eqn:E1.
+    destruct o1.
+    + destruct (Hc r v s s1 TOk Hs E1) as [Hs1 _]; [discriminate|]. eapply IH; eassumption.
+    + injection H as <- <-. apply (Hc r v s s1 TPanic Hs E1). discriminate.
+    + injection H as <- <-. apply (Hc r v s s1 THang Hs E1). discriminate.
+    + injection H as _ <-. exfalso. apply Ho. reflexivity.
+Qed.
+
+(* Iterating a value never waits on a placeholder and leaves none unreleased. *)
+Lemma icall_safe pol env : fp_release pol = true -> forall fuel, call_safe (icall pol env fuel).
+Proof.
+  intros Hrel fuel. induction fuel as [|k IH]; intros r v s s' o Hs H Ho; cbn [icall] in H.
+  - injection H as _ <-. exfalso. apply Ho. reflexivity.
+  - pose proof (resolve_not_wait s r Hs) as Hw.
+    destruct (resolve s r) as [it| | |].
+    + destruct it as [| |rs]; destruct v as [|kids|t v'];
+        try (injection H as <- <-; split; [exact Hs | discriminate]);
+        try (injection H as _ <-; exfalso; apply Ho; reflexivity).
+      * destruct (ibuild pol env (build_fuel env) t s) as [s1 br] eqn:E.
+        destruct br as [r'| |].
+        -- assert (no_pending s1) as Hs1.
+           { eapply grows_no_pending; [|exact Hs]. eapply ibuild_grows; [exact Hrel | exact E | discriminate]. }
+           exact (IH r' v' s1 s' o Hs1 H Ho).
+        -- injection H as <- <-. split; [|discriminate].
+           eapply grows_no_pending; [|exact Hs]. eapply ibuild_grows; [exact Hrel | exact E | discriminate].
+        -- injection H as _ <-. exfalso. apply Ho. reflexivity.
+      * eapply call_kids_safe; [exact IH | exact Hs | exact H | exact Ho].
+    + exfalso. apply Hw. reflexivity.
+    + injection H as <- <-. split; [exact Hs | discriminate].
+    + injection H as _ <-. exfalso. apply Ho. reflexivity.
+Qed.
+
+Lemma no_pending_empty : no_pending isession_empty.
+Proof. constructor. Qed.
+
+Lemma tmarshal_body_safe pol env fuel s t v s' o :
+  fp_release pol = true -> no_pending s ->
+  tmarshal_body pol env fuel s t v = (s', Some o) -> no_pending s' /\ o <> Hang.
+Proof.
+  intros Hrel Hs. unfold tmarshal_body.
+  destruct (ibuild pol env (build_fuel env) t s) as [s1 br] eqn:E.
+  destruct br as [r| |]; [| |discriminate].
+  - assert (no_pending s1) as Hs1.
+    { eapply grows_no_pending; [|exact Hs]. eapply ibuild_grows; [exact Hrel | exact E | discriminate]. }
+    destruct (icall pol env fuel r v s1) as [s2 o2] eqn:E2.
+    destruct o2; try discriminate; intro H; injection H as <- <-.
+    + split; [|discriminate]. apply (icall_safe pol env Hrel fuel r v s1 s2 TOk Hs1 E2). discriminate.
+    + split; [|discriminate]. apply (icall_safe pol env Hrel fuel r v s1 s2 TPanic Hs1 E2). discriminate.
+    + exfalso. apply (icall_safe pol env Hrel fuel r v s1 s2 THang Hs1 E2); [discriminate | reflexivity].
+  - intro H. injection H as <- <-. split; [|discriminate].
+    eapply grows_no_pending; [|exact Hs]. eapply ibuild_grows; [exact Hrel | exact E | discriminate].
+Qed.
+
+Definition tgood (o : option (outcome unit)) : Prop :=
+  match o with Some o' => good o' | None => True end.
+
+(* Every session of Marshal calls on values over ANY graph of types — cycles, unsupported kinds
+   anywhere, any order of calls, any reuse after failed calls — on every entry point: every call
+   the model evaluates returns a result or an error, provided a failed generation releases its
+   placeholder. *)
+Lemma run_typed_session_good pol e env fuel :
+  fp_release pol = true ->
+  forall calls s, no_pending s -> Forall tgood (run_typed_session pol e env fuel s calls).
+Proof.
+  intros Hrel calls. induction calls as [|[t v] rest IH]; intros s Hs; simpl; [constructor|].
+  match goal with |- context [tmarshal_body pol env fuel ?x t v] => set (s0 := x) end.
+  assert (no_pending s0) as Hs0 by (unfold s0; destruct (fresh_per_call e); [apply no_pending_empty | exact Hs]).
+  destruct (tmarshal_body pol env fuel s0 t v) as [s' o] eqn:E.
+  destruct o as [o'|]; [|constructor; [exact I | constructor]].
+  destruct (tmarshal_body_safe pol env fuel s0 t v s' o' Hrel Hs0 E) as [Hs' Hh].
+  pose proof (run_chain_no_panic e [] 0 (fun _ : fmt => o')) as Hp.
+  assert (run_chain e [] 0 (fun _ : fmt => o') <> Hang) as Hnh.
+  { intro Hx. apply run_chain_hang in Hx as [f Hx]. exact (Hh Hx). }
+  destruct (run_chain e [] 0 (fun _ : fmt => o')) as [u| | |] eqn:Ew;
+    try (constructor; [split; [exact Hp | exact Hnh] | apply IH; exact Hs']).
+  exfalso. apply Hnh. reflexivity.
+Qed.
+
+Lemma run_typed_good_released pol e env fuel calls :
+  fp_release pol = true -> Forall tgood (run_typed pol e env fuel calls).
+Proof. intro Hrel. apply run_typed_session_good; [exact Hrel | apply no_pending_empty]. Qed.
+
+Lemma run_typed_good e env fuel calls : Forall tgood (run_typed policy_current e env fuel calls).
+Proof. apply run_typed_good_released. reflexivity. Qed.
+
+(* What releasing buys.  type T struct { Next *T; Ch chan int }: marshaling a T by value fails (chan)
+   after the iterator of *T has been cached with T's placeholder inside; marshaling a *T next calls it. *)
+Lemma typed_witness_current :
+  run_typed policy_current CBEMarshaler_Marshal rec_env 8 rec_calls = [Some Err; Some Err].
+Proof. vm_compute. reflexivity. Qed.
+
+(* A failure path that deletes the placeholder from the cache but does not release it ... *)
+Lemma unreleased_placeholder_waits :
+  run_typed policy_delete_only CBEMarshaler_Marshal rec_env 8 rec_calls = [Some Err; Some Hang]
+  /\ run_typed policy_delete_only CTEMarshaler_MarshalToDocument rec_env 8 rec_calls = [Some Err; Some Hang]
+  (* ... is invisible to one-shot calls (fresh session) and to repeating the same call: *)
+  /\ run_typed policy_delete_only MarshalToCBEDocument rec_env 8 rec_calls = [Some Err; Some Err]
+  /\ run_typed policy_delete_only CBEMarshaler_Marshal rec_env 8 [(0, VNode []); (0, VNode [])]%nat = [Some Err; Some Err]
+  /\ run_typed policy_delete_only CBEMarshaler_Marshal rec_env 8 [(1, VNode [(0, VNode [])]); (1, VNode [(0, VNode [])])]%nat = [Some Err; Some Err].
+Proof. vm_compute. repeat split. Qed.
+
+(* The protocol before commit d2cf257 (placeholder neither deleted nor released) already waits
+   on the second call with the same type. *)
+Lemma typed_old_protocol_waits :
+  run_typed policy_before_d2cf257 CBEMarshaler_Marshal rec_env 8 [(0, VNode []); (0, VNode [])]%nat = [Some Err; Some Hang].
+Proof. vm_compute. reflexivity. Qed.
+
+(* ------------------------------------------------------------------------- *)
 (** * The CBE fragment: the main decode loop terminates *)
 
 Lemma skipn_length_le {A} n (l : list A) : (length (skipn n l) <= length l)%nat.
